@@ -778,6 +778,69 @@ func TestDriverPubsub(t *testing.T) {
 		idx++
 	}
 
+	// the lock skeleton of api.go against the one FilterApi.v was written from (apiskel_test.go)
+	{
+		repo := os.Getenv("VERIF_REPO")
+		if repo == "" {
+			repo = "/repo"
+		}
+		diffs, found, err := apiSkeletonDiffs(repo)
+		require.NoError(t, err)
+		fns := make([]string, 0, len(apiSkeletons))
+		for fn := range apiSkeletons {
+			fns = append(fns, fn)
+		}
+		sort.Strings(fns)
+		for _, fn := range fns {
+			d, changed := diffs[fn]
+			sc := map[string]interface{}{"function": fn, "skeleton": found[fn]}
+			if changed {
+				sc["modelled"] = d[0]
+				side.Hit("C20/pubsub/api/lock-skeleton-changed/"+fn,
+					"the order of filtersMu.Lock/Unlock, api.filters accesses, EventSystem calls and timer operations in "+fn+" is no longer the one coq/Model/FilterApi.v models; modelled: "+d[0]+"; found: "+d[1], sc)
+			}
+			side.Count(fmt.Sprintf("api_skeleton:%s:matches=%v", fn, !changed))
+			cases.Add(fmt.Sprintf("(PSkel %s)", CqBool(!changed)))
+			side.Case(idx, "api-skeleton:"+fn+":"+found[fn], true, sc)
+			idx++
+		}
+	}
+
+	// the same events delivered to a newPendingTransactions subscription of the real websocket server (ws_test.go)
+	for _, k := range []struct {
+		name            string
+		hasMsgs, validB bool
+	}{{"garbage-eth-payload", true, false}, {"no-messages", false, false}} {
+		survived, out := runWsChild(t, "ws:pending:"+k.name)
+		pc := map[string]interface{}{"input": k.name, "survived": survived, "server": "websocket"}
+		if !survived {
+			_, ex := wsCrashSignature("C20/pubsub/ws/pending-tx", out)
+			pc["output"] = ex
+			side.Hit("C20/pubsub/ws/pending-tx/"+k.name, "a Tx event of a committed transaction crashed the websocket server's newPendingTransactions consumer goroutine (whole process)", pc)
+		}
+		side.Count(fmt.Sprintf("ws_pending:%s:survived=%v", k.name, survived))
+		cases.Add(fmt.Sprintf("(PPending %s %s %s)", CqBool(k.hasMsgs), CqBool(k.validB), CqBool(survived)))
+		side.Case(idx, "ws-pending:"+k.name, true, pc)
+		idx++
+	}
+	// concurrent websocket clients on the real websocket server, in a child process (ws_test.go)
+	{
+		wms := 2500
+		if os.Getenv("VERIF_TIER") == "thorough" {
+			wms = 30000
+		}
+		survived, out := runWsChild(t, "ws:stress", fmt.Sprintf("VERIF_WSSTRESS_MS=%d", EnvInt("VERIF_WSSTRESS_MS", wms)))
+		if !survived {
+			sig, ex := wsCrashSignature("C20/pubsub/ws-stress", out)
+			side.Hit(sig, "the process running the websocket server under concurrent clients (subscribe / unsubscribe / malformed messages / dropped connections while events stream) died or stalled",
+				map[string]interface{}{"stderr": ex})
+		}
+		side.Count(fmt.Sprintf("ws_stress:ok=%v", survived))
+		cases.Add(fmt.Sprintf("(PWsStress %s)", CqBool(survived)))
+		side.Case(idx, "ws-stress", true, map[string]interface{}{"survived": survived})
+		idx++
+	}
+
 	// concurrent JSON-RPC filter calls on the real PublicFilterAPI, in a child process (api_test.go)
 	ms := 3000
 	if os.Getenv("VERIF_TIER") == "thorough" {
